@@ -127,12 +127,12 @@ var c08F64Edges = []uint64{0, 0x8000000000000000, 0x3ff0000000000000, 0xbff00000
 var c08F32Edges = []uint64{0, 0x80000000, 0x3f800000, 0xbf800000, 0x7f800000, 0xff800000, 0x7fc00000, 0x7f800001, 1, 0x7f7fffff, 0x007fffff, 0x3dcccccd}
 
 const (
-	c08MaxUsSec = 9223372036854   // floor(2^63 / 1e6)
-	c08MaxDay   = 2147483647      // int32
-	c08Year1    = -62135596800    // 0001-01-01
-	c08Y9999    = 253402300799    // 9999-12-31T23:59:59
-	c08Y2500    = 16725225600     // F08 witnesses
-	c08Sat      = 9223372036      // ±292 years: time.Duration saturates
+	c08MaxUsSec = 9223372036854 // floor(2^63 / 1e6)
+	c08MaxDay   = 2147483647    // int32
+	c08Year1    = -62135596800  // 0001-01-01
+	c08Y9999    = 253402300799  // 9999-12-31T23:59:59
+	c08Y2500    = 16725225600   // F08 witnesses
+	c08Sat      = 9223372036    // ±292 years: time.Duration saturates
 )
 
 func c08GenTime(r *Rng, at string) *c08Val {
@@ -192,7 +192,7 @@ func c08FixedWidth(at string) (int, bool) {
 
 // c08GenLeaf draws a value of a leaf kind, steering to the edges that matter for the type option.
 func c08GenLeaf(r *Rng, kind, at string) *c08Val {
-	switch kind {
+	switch c08Base(kind) {
 	case "i8", "i16", "i32", "i64", "int", "u8", "u16", "u32", "u64", "uint":
 		return c08GenInt(r, kind)
 	case "f32":
@@ -360,7 +360,7 @@ func c08PosFor(r *Rng, sp c08Spec) int {
 		}
 	}
 	untaggedOK := sp.at == ""
-	isKey := untaggedOK && (sp.kind == "str" || sp.kind[0] == 'i' || sp.kind[0] == 'u')
+	isKey := untaggedOK && (c08Base(sp.kind) == "str" || sp.kind[0] == 'i' || sp.kind[0] == 'u')
 	for {
 		p := r.Intn(8)
 		if p == 6 && !untaggedOK {
@@ -845,6 +845,31 @@ func c08Gen(g *Gen) {
 			}
 		}
 		g.Case(c08Line("rt", c08St(f), (&c08Val{K: 'r', Elems: []*c08Val{v}}).tokens()))
+	}
+	// (g) hand-written named string types with methods (Stringer, error, TextMarshaler, json.Marshaler,
+	// Formatter) as field types, list elements, map values, map keys and struct children
+	for i, n := 0, g.N(900, 20000); i < n; i++ {
+		kind := Pick(r, c08NamedStringKinds)
+		at := Pick(r, []string{"", "", "large_string", "enum", "dict_string", "decimal"})
+		sp := c08Spec{kind, at}
+		f, v := c08Wrap(r, sp, c08PosFor(r, sp))
+		st := c08St(f)
+		sv := &c08Val{K: 'r', Elems: []*c08Val{v}}
+		if r.Chance(30) { // next to ordinary fields
+			st2, sv2 := tg.structTy(0, r.Range(1, 2))
+			st = c08St(append(st2.Fields, f)...)
+			sv = &c08Val{K: 'r', Elems: append(sv2.Elems, v)}
+		}
+		g.Case(c08Line("rt", st, sv.tokens()))
+	}
+	g.Case("sc st 2 x636f6465 x niC x6c x sl ptr niC") // a named integer with String(): described by its kind
+	// (h) concurrent first use of a struct type this process has never described
+	for i, n := 0, g.N(300, 6000); i < n; i++ {
+		st, sv := tg.structTy(r.Range(1, 3), r.Range(4, 9)) // many fields: a long reflection walk
+		// a field name no other case uses makes the type new to the process-wide memo table
+		st.Fields = append(st.Fields, c08Field{Tag: fmt.Sprintf("cc%d_%d_%d", g.Seed, i, r.Intn(1<<30)), T: c08Leaf("i64")})
+		sv.Elems = append(sv.Elems, c08GenInt(r, "i64"))
+		g.Case(c08Line("cc", st, sv.tokens()))
 	}
 	// (d) malformed / rejected: unsupported pairs, tag soup, over-deep nesting, odd shapes
 	for i, n := 0, g.N(1200, 30000); i < n; i++ {
